@@ -14,6 +14,7 @@ import (
 	"strings"
 	"sync"
 
+	"github.com/formancehq/numscript/internal/analysis"
 	"github.com/formancehq/numscript/internal/lsp"
 	"github.com/sourcegraph/jsonrpc2"
 )
@@ -22,6 +23,8 @@ var lspTexts = []string{
 	"",
 	"vars {\n account $a\n}\nsend [USD 1] (\n source = $a\n destination = @b\n)\n",
 	"vars {\n monetary $m = balance(@x, USD)\n}\nsend $m (\n source = @world\n destination = @y\n)\n",
+	// multi-line diagnostics that end at a smaller column than they start
+	"send [COIN 3] (\n source = @a\n   destination = {\n      1/2 to @b\n      1/3 to @c\n }\n)\nset_tx_meta(\"k\"\n)\n",
 	"set_tx_meta(\"k\", $undefined)\nsend [EUR 2] (\n",
 	"vars {\n portion $p\n portion $p\n}\nsend [COIN 3] (\n source = @a\n destination = { $p to @b\n remaining kept }\n)\n",
 }
@@ -126,6 +129,48 @@ type lspOp struct {
 
 func uriOf(u int) string { return fmt.Sprintf("file:///doc%d.num", u) }
 
+// what a fresh ANALYSIS of a text gives, in the shape of the published diagnostics (sorted)
+func analysisDiags(text string) (out []string, panicMsg string) {
+	defer func() {
+		if r := recover(); r != nil {
+			panicMsg = oneLine(fmt.Sprint(r))
+		}
+	}()
+	res := analysis.CheckSource(text)
+	for _, d := range res.Diagnostics {
+		b, _ := json.Marshal(J{"range": J{"start": J{"line": d.Range.Start.Line, "character": d.Range.Start.Character}, "end": J{"line": d.Range.End.Line, "character": d.Range.End.Character}},
+			"severity": int(d.Kind.Severity()), "message": d.Kind.Message()})
+		out = append(out, string(b))
+	}
+	sort.Strings(out)
+	return out, ""
+}
+
+// the published diagnostics reduced to (range, severity, message), sorted
+func publishedCore(pub []any) []string {
+	out := []string{}
+	for _, p := range pub {
+		pj, _ := p.(J)
+		ds, _ := pj["diags"].([]string)
+		for _, d := range ds {
+			var x struct {
+				Range    lspRange `json:"range"`
+				Severity int      `json:"severity"`
+				Message  string   `json:"message"`
+			}
+			if json.Unmarshal([]byte(d), &x) != nil {
+				out = append(out, "unparsable "+d)
+				continue
+			}
+			b, _ := json.Marshal(J{"range": J{"start": J{"line": x.Range.Start.Line, "character": x.Range.Start.Character}, "end": J{"line": x.Range.End.Line, "character": x.Range.End.Character}},
+				"severity": x.Severity, "message": x.Message})
+			out = append(out, string(b))
+		}
+	}
+	sort.Strings(out)
+	return out
+}
+
 func applyOp(st *lsp.State, op lspOp) (reply string, published []any, panicMsg string) {
 	var r any
 	out, pm := capture(func() {
@@ -193,6 +238,20 @@ func cmdLspCheck(args []string) {
 				rf, pf, pmf = applyOp(&fresh, op)
 			}
 			same := rl == rf && fmt.Sprint(pl) == fmt.Sprint(pf)
+			// ... and the published set must be what a fresh analysis of the latest text gives (range, severity, message)
+			if (op.Op == "open" || op.Op == "change") && pm == "" && op.Latest != 0 {
+				exp, apm := analysisDiags(lspTexts[op.Latest])
+				if apm == "" && fmt.Sprint(publishedCore(pl)) != fmt.Sprint(exp) {
+					same = false
+					rf = "analysis: " + fmt.Sprint(exp)
+				}
+				wantURI := uriOf(op.U)
+				for _, p := range pl {
+					if pj, ok := p.(J); ok && pj["uri"] != wantURI {
+						same = false
+					}
+				}
+			}
 			res = append(res, J{"op": op.Op, "u": op.U, "latest": op.Latest, "same": same, "panic": pm, "freshpanic": pmf, "long": rl, "fresh": rf,
 				"longpub": fmt.Sprint(pl), "freshpub": fmt.Sprint(pf)})
 			steps++
